@@ -36,6 +36,7 @@ contract(
         "append_gap_trivia_from_offsets": External(returns=NoneT, params=["trivia"], modifies=["trivia[]"]),
     },
     ensures=[
+        "result is not None",
         # the gate: pass-through mode exactly when tree-sitter reports an error
         "result.contains_error == node.has_error",
         # in pass-through mode the whole tree is one raw-text node holding the node's text, no trailing trivia
@@ -73,6 +74,7 @@ contract(
         "parse_to_ast": External(returns=_NODE, params=["source_code"]),
     },
     ensures=[
+        "result is not None",
         # C07: an erroneous source is kept as ONE raw node holding the complete input text (leading whitespace included)
         "implies(result.contains_error, len(result.expressions) == 1 and isinstance(result.expressions[0], RawExpression) "
         "and result.expressions[0].text == source_code)",
